@@ -18,7 +18,7 @@ RULE = (
     "kinds, shape, texture); non-trivial = the volume has both finite and NaN costs"
 )
 ASSUMPTIONS = [
-    "integer radiometry: SAD and census compared bit for bit, SSD to 1e-6 relative (float32 sums), ZNCC within "
+    "integer radiometry: SAD and census compared bit for bit, SSD to (w*w+4)*2^-23 relative (float32 sums of w*w squares), ZNCC within "
     "1e-5 + float32 rounding bound of the products; zero-variance windows must give exactly 0",
     "images at least as large as the matching window (smaller ones are out of domain)",
     "image samples are finite (what the file reader guarantees: NaN / inf nodata samples become -9999), except with zncc at "
@@ -227,7 +227,8 @@ def compare(ctx, case, desc, side, got_cv, exp, disps_exp, method, attrs, l_img,
     if method in ("sad", "census"):
         bad = fin & (got != exp.astype(np.float32))
     elif method == "ssd":
-        bad = fin & ~np.isclose(got, exp, rtol=2e-6, atol=1e-3)
+        # float32 sum of w*w float32 squares: worst-case relative error (w*w + 4) * 2^-24 per operation chain, taken twice
+        bad = fin & ~np.isclose(got, exp, rtol=max(2e-6, (w * w + 4) * 2.0 ** -23), atol=1e-3)
     else:
         # zncc: interval oracle - float32 rounding of the products bounds the error, amplified by 1/variance
         tol = np.empty(exp.shape)
